@@ -7,6 +7,7 @@
 #include <pnetcdf.h>
 #include <dispatch.h>
 #include <ncmpio_NC.h>
+#include <common.h>
 #include "ghost.h"
 int IN_flags, IN_format, IN_rank, IN_nprocs, IN_num_rec_vars, IN_reqMode; long long IN_numrecs, IN_new_numrecs, IN_start0, IN_count0, IN_stride0;
 _Bool IN_isrec, IN_has_stride, IN_zero_req;
@@ -20,6 +21,7 @@ _Bool IN_isrec, IN_has_stride, IN_zero_req;
 #endif
 
 long long g_decoded_nbytes;   /* ghost: what the request decodes to (bytes to transfer) */
+int g_decoded_contig;
 #define ISREC(varp) ((varp) != NULL && (varp)->shape != NULL && (varp)->shape[0] == NC_UNLIMITED)
 #define IS_COLL(m) (((m) & NC_REQ_COLL) != 0)
 #define NEWREC(start, count, stride) ((stride) == NULL ? (start)[0] + (count)[0] : (start)[0] + ((count)[0] - 1) * (stride)[0] + 1)
@@ -34,9 +36,13 @@ __CPROVER_requires(g_coll_n == 0 && g_io_n == 0 && g_nwrites == 0 && g_io_failed
 __CPROVER_requires(varp == NULL || (varp->ndims == NDIMS && varp->shape != NULL && varp->xsz >= 1 && varp->xsz <= 8 &&
                    start != NULL && count != NULL && start[0] >= 0 && start[0] < ((long long)1 << 40) && count[0] >= 1 && count[0] < 1024 &&
                    (stride == NULL || stride[0] == STRIDE0)))
-__CPROVER_assigns(ncp->numrecs, ncp->put_size, ncp->get_size, ncp->flags, __CPROVER_object_whole(buf), g_user_swaps, g_decoded_nbytes, GHOST_ASSIGNS)
+__CPROVER_assigns(ncp->numrecs, ncp->put_size, ncp->get_size, ncp->flags, __CPROVER_object_whole(buf), g_user_swaps, g_decoded_nbytes, g_decoded_contig, GHOST_ASSIGNS)
 /* C13 */
 __CPROVER_ensures(g_user_swaps % 2 == 0) /*@C13_user_buffer_swapped_back*/
+/* C10 / C13: the caller's buffer is byte-swapped in place only when that is allowed: contiguous buffer
+ * type, hint not 'disable', and hint 'enable' or a request above the in-place-swap threshold */
+__CPROVER_ensures(IMPLIES(g_user_swaps > 0, g_decoded_contig && !(ncp->flags & NC_MODE_SWAP_OFF) &&
+      ((ncp->flags & NC_MODE_SWAP_ON) || g_decoded_nbytes > NC_BYTE_SWAP_BUFFER_SIZE))) /*@C10_in_place_swap_only_when_permitted_and_contiguous*/
 /* C05 */
 __CPROVER_ensures(ncp->numrecs >= __CPROVER_old(ncp->numrecs)) /*@C05_numrecs_never_decreases*/
 __CPROVER_ensures(IMPLIES(ISREC(varp) && !IS_COLL(reqMode) && OKRET(__CPROVER_return_value) && g_io_n >= 1 && g_io_count[0] > 0,
